@@ -78,6 +78,14 @@ Definition dispatch_chunk (fn : string) (args : list Q) (s : pstate) (chunk : li
       end
   end.
 
+(* the generic dispatch loop: `for i_target in range(0, len(targets), num_qubits)` *)
+Definition dispatch_targets (fn : string) (ar : nat) (args : list Q) (s : pstate) (ts : list target) : option pstate :=
+  if existsb (fun t => match t with TSweep _ => true | _ => false end) ts then None else
+  match chunks_fuel (S (List.length ts)) ar ts with
+  | None => None
+  | Some chs => fold_left (fun acc ch => match acc with Some st => dispatch_chunk fn args st ch | None => None end) chs (Some s)
+  end.
+
 (* MPP: products separated by non-combiner boundaries; inversions XOR-ed *)
 Fixpoint mpp_products_of (ts : list target) (cur : list (pauli * nat)) (inv : bool) : option (list (list (pauli * nat) * bool)) :=
   match ts with
@@ -144,12 +152,7 @@ Definition step_instr (aux : nat) (s : pstate) (i : instr) : option pstate :=
   else
     match assoc name gate_table with
     | None => None                                   (* Unknown gate *)
-    | Some (fn, ar) =>
-        if existsb (fun t => match t with TSweep _ => true | _ => false end) (itargets i) then None else
-        match chunks_fuel (S (List.length (itargets i))) ar (itargets i) with
-        | None => None
-        | Some chs => fold_left (fun acc ch => match acc with Some st => dispatch_chunk fn (iargs i) st ch | None => None end) chs (Some s)
-        end
+    | Some (fn, ar) => dispatch_targets fn ar (iargs i) s (itargets i)
     end
   end.
 
